@@ -13,7 +13,7 @@
 (***************************************************************************)
 EXTENDS ModbusPDU, CodecAPI
 
-FramingOf(client) == IF client \in {"tcp", "tcpgen"} THEN "tcp" ELSE "rtu"   \* "tcpgen": the configurable client with the TCP functions
+FramingOf(client) == IF client \in {"tcp", "tcpgen", "gendef"} THEN "tcp" ELSE "rtu"   \* "gendef": NewClient with a zero-valued configuration (TCP is the documented default);   \* "tcpgen": the configurable client with the TCP functions
 
 \* R is the normal reply a conforming device sends to request r
 ProperNormal(fr, r, R) ==
